@@ -588,6 +588,10 @@ class KlongInterpreter():
             elif has_none(f.args):
                 f_args.append(f.args if isinstance(f.args, list) else [f.args])
                 return f.a, f_args, f.arity
+        if type(f) is KGLambda and not f._wildcard:
+            # a bare KGLambda (a callable imported with .py / .pyf) knows its own arity, like the
+            # KGCall that klong[name]=fn stores: two(1) is a projection, nil@[] applies the nilad
+            return f, f_args, f.get_arity()
         return f, f_args, f_arity
 
     def _eval_fn(self, x: KGFn):
